@@ -246,6 +246,64 @@ class LookupCase(Case):
         return {}
 
 
+class ExternalCase(LookupCase):
+    """'external/<rest>': the external optimizer plug-in answers for what a *default* manager supports as <rest>
+    (plug-ins added to the calling manager are unknown to the optimizer process it would start)."""
+
+    family = "plugin-lookup/external"
+
+    def __init__(self, cid, history, prefix="external/", maxlen=8):
+        super().__init__(cid, history, maxlen=maxlen)
+        self.prefix = prefix
+        self.family = "plugin-lookup/external"
+
+    def describe(self):
+        return f"lookup of '{self.prefix}' + <symbolic string, |t|<={self.maxlen}> history={self.history}"
+
+    def inputs(self, env):
+        return {"t": env.string("t", self.maxlen)}
+
+    def run(self, env, inp):
+        from ropt.exceptions import ConfigError
+        from ropt.plugins import PluginManager
+        from symnp.core import i_fold
+
+        pm, before, dup = self.build()
+        registry = list(pm.plugins("optimizer"))
+        default_registry = list(PluginManager().plugins("optimizer"))
+        cands = {n for n, _ in registry}
+        for n, p in registry:
+            cands |= self.methods_of(p)
+        set_candidates(cands)
+        t = inp["t"]
+        if isinstance(t, str):
+            s = self.prefix + t
+        else:
+            s = SymStr([ord(c) for c in self.prefix] + list(t.chars), i_fold(zi(t.n) + len(self.prefix)))
+        try:
+            got, err = pm.get_plugin("optimizer", s), False
+        except ConfigError:
+            got, err = None, True
+        sup = pm.is_supported("optimizer", s)
+        return {"got": got, "err": err, "sup": sup, "default_registry": default_registry, "registry": registry}
+
+    def props(self, env, inp, oc):
+        if not oc.ok:
+            return [("no_internal_exception:" + type(oc.exc).__name__, SB(False))]
+        o = oc.value
+        t = inp["t"]
+        ext = dict(o["registry"])["external"]
+        plugs = o["default_registry"]
+        if isinstance(t, str):
+            ok = SB(self.reference(plugs, t) is not None)
+        else:
+            ok = SB(b_not(self.reference_sym(plugs, t)[None]))
+        props = [("external_answers_iff_a_default_manager_supports_the_rest", Iff(SB(o["got"] is ext), ok)),
+                 ("otherwise_config_error", SB(o["got"] is ext or (o["got"] is None and o["err"]))),
+                 ("is_supported_iff_lookup_succeeds", SB(bool(o["sup"]) == (o["got"] is not None)))]
+        return props
+
+
 def build_cases(tier):
     cases = []
     k = 0
@@ -268,6 +326,9 @@ def build_cases(tier):
     add([("alpha", "alpha", False)], later=[("beta", "beta", True)])                         # lookup, prioritised add, lookup again
     add([], later=[("gamma", "gamma", True), ("alpha", "alpha", True)])
     add([("beta", "beta", False)], later=[("alpha", "alpha", False)], second_manager=True)
+    for hist, prefix in (([], "external/"), ([("alpha", "alpha", False)], "External/"), ([("d", "d", True)], "external/")):
+        k += 1
+        cases.append(ExternalCase(f"c19-{k:03d}", hist, prefix=prefix))
     if tier == "thorough":
         names = ["alpha", "beta", "gamma"]
         for perm in itertools.permutations(names, 3):
@@ -278,9 +339,9 @@ def build_cases(tier):
 
 
 META = dict(
-    bounds={"quick": "method strings of up to 8 printable-ASCII characters (every character and the length are solver variables); 8 registration histories of <=3 add_plugin calls over 3 stub plug-ins (overlapping methods, one undiscoverable) on top of the entry-point plug-ins; one or two managers",
+    bounds={"quick": "method strings of up to 8 printable-ASCII characters (every character and the length are solver variables); 8 registration histories of <=3 add_plugin calls over 3 stub plug-ins (overlapping methods, one undiscoverable) on top of the entry-point plug-ins; one or two managers; 'external/' + a symbolic string of up to 8 characters on managers with and without added plug-ins",
             "thorough": "all 48 ordered/prioritised histories of the three stubs; strings up to 10 characters",
-            "outside": "longer names (e.g. 'external/...' does not fit the bound); non-ASCII case folding; plug-in types other than optimizer (same code path)"},
+            "outside": "longer names (doubly nested 'external/external/...'); non-ASCII case folding; plug-in types other than optimizer (same code path)"},
     stubs=["stub optimizer plug-ins with is_supported(method) = method.lower() in <set> and a discovery flag; the SciPy plug-in's own is_supported runs for real"],
     assumptions=["dict/set membership of the symbolic string is decided by forking over the registered names and method names (candidates) plus an 'other' class"],
     timeout_ms={"quick": 10000, "thorough": 30000},
